@@ -374,6 +374,23 @@ func (tb *termBuilder) structLit(a *ssa.Alloc) *Term {
 	if !ok || a.Parent() == nil {
 		return nil
 	}
+	if v := wholeStore(a); v != nil {
+		// a local copy of a struct value (spilled receiver / parameter): the value itself, unless fields are overwritten
+		over := false
+		for _, u := range *a.Referrers() {
+			if fa, ok := u.(*ssa.FieldAddr); ok {
+				for _, uu := range *fa.Referrers() {
+					if st, isS := uu.(*ssa.Store); isS && st.Addr == ssa.Value(fa) {
+						over = true
+					}
+				}
+			}
+		}
+		if !over {
+			return tb.of(v)
+		}
+		return nil
+	}
 	fields := make([]*Term, st.NumFields())
 	for _, b := range a.Parent().Blocks {
 		for _, in := range b.Instrs {
